@@ -15,7 +15,7 @@ Proof. exact load_returns_validated. Qed.
 Print Assumptions C11_load_returns_validated.
 
 Theorem C11_validated_means :
-  forall (F : Type) (lvalidate : F -> pyval -> res pyval) (lflag : F -> bool) (vrun : N -> list (str * pyval) -> bool) (dyn : bool) (vs : list N) (fs : list (str * node F)) (pre : str) (i : N) (d : list (str * val)) (df dy : list str), validate_errs F lvalidate lflag vrun (NSub dyn vs fs) pre (VCfg (Cfg i d df dy)) = [] -> feature_enabled F lflag fs d = true -> (forall (k : str) (f : F) (x : pyval), In (k, NLeaf f) fs -> dget k d = Some (VLeaf x) -> forall e : errk, lvalidate f x <> Err e) /\ (forall (k : str) (req : bool) (vs' : list N) (fs' : list (str * node F)), In (k, NCfgList req vs' fs') fs -> req = true -> dget k d <> Some (VLeaf PNone) /\ dget k d <> Some (VList [])) /\ (forall (k : str) (d' : bool) (vs' : list N) (fs' : list (str * node F)) (sub : cfg), In (k, NSub d' vs' fs') fs -> dget k d = Some (VCfg sub) -> validate_errs F lvalidate lflag vrun (NSub d' vs' fs') (path_join pre k) (VCfg sub) = []) /\ (forall n : N, In n vs -> vrun n (leaf_values d) = true).
+  forall (F : Type) (lvalidate : F -> pyval -> res pyval) (lflag : F -> bool) (vrun : N -> list (str * pyval) -> bool) (dyn : bool) (vs : list N) (fs : list (str * node F)) (pre : str) (i : N) (d : list (str * val)) (df dy : list str), validate_errs F lvalidate lflag vrun (NSub dyn vs fs) pre (VCfg (Cfg i d df dy)) = [] -> feature_enabled F lflag fs d = true -> (forall (k : str) (f : F) (x : pyval), In (k, NLeaf f) fs -> dget k d = Some (VLeaf x) -> forall e : errk, lvalidate f x <> Err e) /\ (forall (k : str) (req : bool) (vs' : list N) (fs' : list (str * node F)), In (k, NCfgList req vs' fs') fs -> req = true -> dget k d <> Some (VLeaf PNone) /\ dget k d <> Some (VList [])) /\ (forall (k : str) (req : bool) (vs' : list N) (fs' : list (str * node F)) (l : list cfg), In (k, NCfgList req vs' fs') fs -> dget k d = Some (VList l) -> items_errs F lvalidate lflag vrun vs' fs' (path_join pre k) l 0 = []) /\ (forall (k : str) (d' : bool) (vs' : list N) (fs' : list (str * node F)) (sub : cfg), In (k, NSub d' vs' fs') fs -> dget k d = Some (VCfg sub) -> validate_errs F lvalidate lflag vrun (NSub d' vs' fs') (path_join pre k) (VCfg sub) = []) /\ (forall n : N, In n vs -> vrun n (leaf_values d) = true).
 Proof. exact validated_means. Qed.
 Print Assumptions C11_validated_means.
 
@@ -23,4 +23,9 @@ Theorem C11_disabled_exempt :
   forall (F : Type) (lvalidate : F -> pyval -> res pyval) (lflag : F -> bool) (vrun : N -> list (str * pyval) -> bool) (dyn : bool) (vs : list N) (fs : list (str * node F)) (pre : str) (i : N) (d : list (str * val)) (df dy : list str), feature_enabled F lflag fs d = false -> validate_errs F lvalidate lflag vrun (NSub dyn vs fs) pre (VCfg (Cfg i d df dy)) = [].
 Proof. exact disabled_exempt. Qed.
 Print Assumptions C11_disabled_exempt.
+
+Theorem C11_validate_errs_list :
+  forall (F : Type) (lvalidate : F -> pyval -> res pyval) (lflag : F -> bool) (vrun : N -> list (str * pyval) -> bool) (req : bool) (vs : list N) (fs : list (str * node F)) (pre : str) (l : list cfg), validate_errs F lvalidate lflag vrun (NCfgList req vs fs) pre (VList l) = items_errs F lvalidate lflag vrun vs fs pre l 0.
+Proof. exact validate_errs_list. Qed.
+Print Assumptions C11_validate_errs_list.
 
